@@ -176,6 +176,15 @@ func (f *Frame) storeEffect(addr ssa.Value, blocks map[*ssa.BasicBlock]bool, ef 
 
 func (f *Frame) scanEffects(blocks map[*ssa.BasicBlock]bool, ef *effects, depth int) {
 	e := f.e
+	// ghost variables assigned by a `ghost@<site>` clause of the contract under verification may be assigned in any loop
+	// (the site may lie in the loop body): they are loop-modified, only the invariants say what is known about them
+	if depth == 0 && e.C != nil {
+		for i := range e.C.Sites {
+			if sc := &e.C.Sites[i]; sc.Kind == "ghost" && sc.Site != "entry" {
+				ef.ghosts[sc.Var] = true
+			}
+		}
+	}
 	var bl []*ssa.BasicBlock
 	for b := range blocks {
 		bl = append(bl, b)
